@@ -190,6 +190,8 @@ class OptimizerGeneric:
                                        bounds=bounds,
                                        options=options,
                                        tol=tol)
+        # the last point evaluated is generally not the returned solution
+        self._set_variables(result.x)
         return result
 
     def undo(self):
@@ -202,6 +204,17 @@ class OptimizerGeneric:
                 var.update(x0[idvar])
             self._x.pop(-1)
 
+    def _set_variables(self, x):
+        """
+        Set all variables to the given values and update the optics.
+
+        Args:
+            x (array-like): The values of the variables.
+        """
+        for idvar, var in enumerate(self.problem.variables):
+            var.update(x[idvar])
+        self.problem.update_optics()  # update all optics (e.g., pickups)
+
     def _fun(self, x):
         """
         Internal function to evaluate the objective function.
@@ -212,9 +225,7 @@ class OptimizerGeneric:
         Returns:
             rss (float): The residual sum of squares.
         """
-        for idvar, var in enumerate(self.problem.variables):
-            var.update(x[idvar])
-        self.problem.update_optics()  # update all optics (e.g., pickups)
+        self._set_variables(x)
         funs = np.array([op.fun() for op in self.problem.operands])
         rss = np.sum(funs**2)
         if np.isnan(rss):
@@ -282,6 +293,8 @@ class LeastSquares(OptimizerGeneric):
                                             max_nfev=maxiter,
                                             verbose=verbose,
                                             ftol=tol)
+        # the last point evaluated is generally not the returned solution
+        self._set_variables(result.x)
         return result
 
 
@@ -324,6 +337,8 @@ class DualAnnealing(OptimizerGeneric):
                                              bounds=bounds,
                                              maxiter=maxiter,
                                              x0=x0)
+        # the last point evaluated is generally not the returned solution
+        self._set_variables(result.x)
         return result
 
 
@@ -386,4 +401,6 @@ class DifferentialEvolution(OptimizerGeneric):
                                                      disp=disp,
                                                      updating=updating,
                                                      workers=workers)
+        # the last point evaluated is generally not the returned solution
+        self._set_variables(result.x)
         return result
